@@ -59,7 +59,15 @@ var vnames = []string{"T", "C", "L", "R", "K"}
 
 // probeIn is the input of one probe: pt is the payload (plaintext / JWT issuer), x the data the
 // output is bound to (associated data, MAC/signature message, hybrid context info).
-type probeIn struct{ pt, x []byte }
+type probeIn struct {
+	pt, x []byte
+	src   int // streaming AEAD: kind of ciphertext source (0: bytes.Reader, 1: 4 KiB reads, 2: last bytes together with io.EOF)
+}
+
+// bigStream: the streaming-AEAD case under construction uses large segments (4 KiB, 64 KiB + 1, 1 MiB as in the
+// *1MB templates, 2 MiB) and plaintexts of 60 KiB .. 2.5 MiB: a trial with a non-matching key consumes a whole
+// segment of ITS size, which the keyset-level reader has to replay for the next key.
+var bigStream bool
 
 type kspec struct {
 	label   string
@@ -559,11 +567,53 @@ func streamEncrypt(a tink.StreamingAEAD, in probeIn) ([]byte, error) {
 }
 
 func streamDecrypt(a tink.StreamingAEAD, y []byte, in probeIn) ([]byte, error) {
-	r, err := a.NewDecryptingReader(bytes.NewReader(fresh(y)), fresh(in.x))
+	var src io.Reader = bytes.NewReader(fresh(y))
+	if in.src != 0 {
+		src = &chunkSource{data: fresh(y), mode: in.src}
+	}
+	r, err := a.NewDecryptingReader(src, fresh(in.x))
 	if err != nil {
 		return nil, err
 	}
 	return io.ReadAll(r)
+}
+
+// chunkSource is a non-seekable source: mode 1 hands out at most 4 KiB per Read, mode 2 everything asked for
+// with the last bytes coming together with io.EOF.
+type chunkSource struct {
+	data []byte
+	pos  int
+	mode int
+}
+
+func (s *chunkSource) Read(p []byte) (int, error) {
+	if len(p) == 0 {
+		return 0, nil
+	}
+	rem := len(s.data) - s.pos
+	if rem == 0 {
+		return 0, io.EOF
+	}
+	n := len(p)
+	if s.mode == 1 && n > 4096 {
+		n = 4096
+	}
+	if n > rem {
+		n = rem
+	}
+	copy(p, s.data[s.pos:s.pos+n])
+	s.pos += n
+	if s.pos == len(s.data) && s.mode == 2 {
+		return n, io.EOF
+	}
+	return n, nil
+}
+
+func streamSeg(m *hlib.Rng, small ...int) int32 {
+	if bigStream {
+		return int32(m.Pick(4096, 65537, 1<<20, 2<<20))
+	}
+	return int32(m.Pick(small...))
 }
 
 func genStream(kind, v int, id uint32, m *hlib.Rng, hdr []byte) *kspec {
@@ -574,14 +624,20 @@ func genStream(kind, v int, id uint32, m *hlib.Rng, hdr []byte) *kspec {
 		s.label = "aesgcmhkdf"
 		ks := m.Pick(16, 32)
 		ps := must(streamgcm.NewParameters(streamgcm.ParametersOpts{KeySizeInBytes: 32, DerivedKeySizeInBytes: ks,
-			HKDFHashType: []streamgcm.HashType{streamgcm.SHA256, streamgcm.SHA512}[m.Intn(2)], SegmentSizeInBytes: int32(m.Pick(64, 128, 4096))}))
+			HKDFHashType: []streamgcm.HashType{streamgcm.SHA256, streamgcm.SHA512}[m.Intn(2)], SegmentSizeInBytes: streamSeg(m, 64, 128, 4096)}))
 		s.key = must(streamgcm.NewKey(ps, hlib.Secret(m.Bytes(32))))
+		if bigStream {
+			s.label = fmt.Sprintf("aesgcmhkdf/derived%d/seg%d", ks, ps.SegmentSizeInBytes())
+		}
 		a = prim(s.key).(tink.StreamingAEAD)
 	case 1:
 		s.label = "aesctrhmac-stream"
 		ps := must(streamctr.NewParameters(streamctr.ParametersOpts{KeySizeInBytes: 32, DerivedKeySizeInBytes: m.Pick(16, 32), HkdfHashType: streamctr.SHA256,
-			HmacHashType: streamctr.SHA256, HmacTagSizeInBytes: m.Pick(16, 32), SegmentSizeInBytes: int32(m.Pick(128, 256, 4096))}))
+			HmacHashType: streamctr.SHA256, HmacTagSizeInBytes: m.Pick(16, 32), SegmentSizeInBytes: streamSeg(m, 128, 256, 4096)}))
 		s.key = must(streamctr.NewKey(ps, hlib.Secret(m.Bytes(32))))
+		if bigStream {
+			s.label = fmt.Sprintf("aesctrhmac-stream/derived%d/seg%d", ps.DerivedKeySizeInBytes(), ps.SegmentSizeInBytes())
+		}
 		a = prim(s.key).(tink.StreamingAEAD)
 	default:
 		s.label = "legacy-aesgcmhkdf"
